@@ -516,6 +516,8 @@ class Executor:
             fn = getattr(m, "contains_fn", None)
             if fn is not None:
                 return fn(self, path, container, item)
+        if isinstance(container, Py) and container.obj[0] in CONTAINS_HOOKS:
+            return CONTAINS_HOOKS[container.obj[0]](self, path, container, item)
         if isinstance(container, Py) and container.obj[0] == "strset":
             if isinstance(item, S):
                 return z3.Or(*[item.e == z3.StringVal(x) for x in container.obj[1]])
@@ -708,12 +710,15 @@ class Executor:
             p.env = saved
             nd = p.alloc(d.cls, "dfilt")
             has = p.sel("dict.has", d.e)
-            p.store("dict.has", nd.e, z3.Lambda([kk], z3.And(z3.Select(has, kk), pred)))
+            nhas = fresh("dfilt_has", has.sort())
+            p.assume(z3.ForAll([kk], z3.Select(nhas, kk) == z3.And(z3.Select(has, kk), pred),
+                               patterns=[z3.Select(nhas, kk)]))
+            p.store("dict.has", nd.e, nhas)
             p.store("dict.val", nd.e, p.sel("dict.val", d.e))
             out.append((p, nd))
         return out
 
-    def comprehension(self, node, path, kind, env=None) -> list:
+    def comprehension(self, node, path, kind, env=None, swallow=False) -> list:
         """Desugar [elt for x in it if c] to: acc = []; for x in it: if c: acc.append(elt)."""
         if len(node.generators) != 1 or node.generators[0].is_async:
             self.unsupported(node, "multi-clause comprehension")
@@ -750,6 +755,10 @@ class Executor:
         else:
             self.unsupported(node)
         body = app
+        if swallow and kind == "list":
+            exc_app = ast.Expr(ast.Call(ast.Attribute(ast.Name(acc_name, ast.Load()), "append", ast.Load()),
+                                        [ast.Name("__swallowed", ast.Load())], []))
+            body = ast.Try([app], [ast.ExceptHandler(ast.Name("BaseException", ast.Load()), "__swallowed", [exc_app])], [], [])
         for cond in reversed(gen.ifs):
             body = ast.If(cond, [body], [])
         loop = ast.For(gen.target, gen.iter, [body], [])
@@ -1661,4 +1670,5 @@ def _target_names(t):
 
 
 BINOPS: Dict[tuple, Callable] = {}
+CONTAINS_HOOKS: Dict[str, Callable] = {}
 STR_METHODS: Dict[str, Callable] = {}
